@@ -147,6 +147,12 @@ int vs_once(pthread_once_t *c, void (*f)(void)) {
     vs_nofn++; int r = pthread_once(c, f); vs_nofn--;
     return r;
 }
+/* write-type system calls issued by snoopy (only in variants compiled with -Dwrite=vs_write ...): a point before each, so that
+ * two threads' file appends can be interleaved at system-call granularity */
+#include <sys/uio.h>
+ssize_t vs_write(int fd, const void *b, size_t n) { int t = vs_tid; if (t >= 0 && active) point(t, VS_USER, (void *)1); return write(fd, b, n); }
+ssize_t vs_writev(int fd, const struct iovec *iov, int c) { int t = vs_tid; if (t >= 0 && active) point(t, VS_USER, (void *)2); return writev(fd, iov, c); }
+int vs_close(int fd) { int t = vs_tid; if (t >= 0 && active) point(t, VS_USER, (void *)3); return close(fd); }
 void vs_user_point(void *obj) { int t = vs_tid; if (t >= 0 && active) point(t, VS_USER, obj); }
 pid_t vs_fork(void) {
     int t = vs_tid;
